@@ -281,6 +281,23 @@ static void laws(unsigned long long& unit)
 	// rejection sampling: first trial on an m x m grid, second trial forced to accept
 	// (two envelopes: a loose one, and one 0.4 % below the maximum of the density, which the sampler tolerates up to 1 %:
 	//  candidates under the part of the density that sticks out are accepted like any other)
+	// the same rule for a density with an interior dip far below its values at the two ends (V shape with a zero in the middle)
+	if(mc::mine(unit++))
+	{
+		std::function<double(double)> vee = [](double x) { return std::fabs(x - 0.8) * 1.2 + 0.0; };
+		for(int i = 0; i < 48; i++)
+			for(int j = 0; j < 48; j++)
+			{
+				ld ux = (i + 0.5L) / 48, uy = (j + 0.5L) / 48, ux2 = 0.9876L;
+				std::mt19937 g = mc::scripted_uniforms({ux, uy, ux2, 0.0L});
+				double x = Rejection_Sampling(vee, 0, 2, 1.5, g);
+				g_cases++;
+				double x1 = mc::canonical_of(ux) * 2 + 0, y1 = mc::canonical_of(uy) * 1.5 + 0, x2 = mc::canonical_of(ux2) * 2;
+				double want = y1 <= vee(x1) ? x1 : x2;
+				std::string key = "Rejection_Sampling(V-shaped density),ux=" + mc::dec((double)ux) + ",uy=" + mc::dec((double)uy);
+				if(!mc::same_bits(x, want)) fail("laws", key, "acceptance_rule_wrong", "returned " + mc::dec(x) + " expected " + mc::dec(want) + (y1 <= vee(x1) ? " (first pair lies under the density)" : " (first pair lies above the density)"));
+			}
+	}
 	if(mc::mine(unit++))
 		for(double yMax : {1.25, 1.195})
 		for(int i = 0; i < 48; i++)
